@@ -1,7 +1,7 @@
 """C16 - normal and exponential samplers really have the normal / exponential law (partial: see Props/C16.lean)."""
 from . import common as C, gen_float as G, float_oracles as FO
 
-LEAN_MODULE = "Urandom.Props.C16"
+LEAN_MODULE = ["Urandom.Props.C16", "Urandom.Props.C16T"]
 RULE = ("the four ziggurat tables and the two R constants are re-translated from src/distr/ziggurat_tables.rs on every run (exact decimal rationals) and the table theorems are "
         "re-proved on them; requests: StandardNormal / Exp1 (f32, f64) and Exp / Normal / LogNormal on scripted words covering all 256 layers x {rectangle, threshold edge +-3 "
         "mantissa steps, wedge, |u| near 1} x both signs x Float01 words {smallest, largest, all leading-zero classes, random} incl. the tails; sample bits and words consumed are "
